@@ -10,6 +10,7 @@
 (*   path    "src/p"    a directory relative to the cwd: loaded under the  *)
 (*                      name of the directory                              *)
 (*   dotted  "p.member" the top package p is loaded, the member returned   *)
+(*   file    "src/p.py" the file of a single-file top-level module         *)
 (* Impl: what cli.dump does - it serialises                                *)
 (* loader.modules_collection.members, i.e. every REGISTERED top-level      *)
 (* package under its registered name, in one document (stdout / -o FILE)   *)
@@ -24,23 +25,26 @@
 (***************************************************************************)
 EXTENDS Naturals, Sequences, FiniteSets, TLC, Json
 
-CONSTANTS Forms,     \* subset of {"name", "path", "dotted"}
+CONSTANTS Forms,     \* subset of {"name", "path", "dotted", "file"}
           Agents,    \* subset of {"static", "static-resolved", "inspect"}: no flag / -r -I / -x
           KeyRule,   \* "registered" | "request-prefix"
           Emit
 
 Packages == {"p1", "p2"}                       \* the packages the user asks for
 
-VARIABLES form, full, out, agent, pc, emitted
-vars == <<form, full, out, agent, pc, emitted>>
+VARIABLES form, full, out, agent, pc, emitted, exc
+vars == <<form, full, out, agent, pc, emitted, exc>>
 
 \* the text of a request and the name under which GriffeLoader.load registers the package it loads
 Request(f, p) == [form |-> f, pkg |-> p,
                   prefix |-> IF f = "path" THEN "src/" ELSE ""]   \* text before the first dot: "src/p" is not "p"
-Registered(r) == r.pkg                         \* name / basename of the directory / first component
+\* name / basename of the directory / first component.  For the FILE of a module that is not inside a package,
+\* finder._top_module_name returns the name of the DIRECTORY holding the file: the loader loads a namespace package
+\* of that name, and _post_load then looks the module up under its own name -> KeyError
+Registered(r) == IF r.form = "file" THEN "src" ELSE r.pkg
 
 Init == /\ form \in Forms /\ full \in BOOLEAN /\ out \in {"stdout", "files"} /\ agent \in Agents
-        /\ pc = "args" /\ emitted = {}
+        /\ pc = "args" /\ emitted = {} /\ exc = ""
 
 \* cli.dump: load every request, then serialise data_packages
 Dump ==
@@ -49,7 +53,9 @@ Dump ==
          registered == {Registered(r) : r \in requests}
          kept == IF KeyRule = "registered" THEN registered
                  ELSE {n \in registered : \E r \in requests : r.prefix = "" /\ r.pkg = n}
-     IN emitted' = {[name |-> n, serialisation |-> [pkg |-> n, full |-> full]] : n \in kept}
+         found == \A r \in requests : Registered(r) = r.pkg        \* modules_collection.get_member(<requested module>)
+     IN /\ exc' = IF found THEN "" ELSE "KeyError"
+        /\ emitted' = IF found THEN {[name |-> n, serialisation |-> [pkg |-> n, full |-> full]] : n \in kept} ELSE {}
   /\ pc' = "done" /\ UNCHANGED <<form, full, out, agent>>
 Next == Dump
 Spec == Init /\ [][Next]_vars
@@ -57,9 +63,10 @@ Done == pc = "done"
 
 \* "emits exactly this serialisation for each requested package"
 EachRequestedPackage == Done => \A p \in Packages : [name |-> p, serialisation |-> [pkg |-> p, full |-> full]] \in emitted
+DumpSucceeds == Done => exc = ""
 NothingElse == Done => Cardinality(emitted) = Cardinality(Packages)
 
 EmitCase == (Emit /\ Done) =>
-  PrintT(<<"CASE", ToJson([form |-> form, full |-> full, out |-> out, agent |-> agent,
+  PrintT(<<"CASE", ToJson([form |-> form, full |-> full, out |-> out, agent |-> agent, exc |-> exc,
                            keys |-> {e.name : e \in emitted}])>>)
 =============================================================================
